@@ -257,12 +257,13 @@ def run(ctx):
     bp = lp.methods.get("_base_placeholder") if lp else None
     if bp is None:
         raise AnalysisError("anchor vanished: LayoutPlaceholder._base_placeholder")
+    from sa.paths import tables_by_use
+
     table = None
-    for n in ast.walk(bp.node):
-        if isinstance(n, ast.Dict) and len(n.keys) >= 5:
-            v = prog.const(n, bp.module)
-            if isinstance(v, dict) and all(isinstance(k, EnumMember) and isinstance(x, EnumMember) for k, x in v.items()):
-                table = {k.name: x.name for k, x in v.items()}
+    for v, node_ in tables_by_use(prog, bp):
+        if len(v) >= 5 and all(isinstance(k, EnumMember) and isinstance(x, EnumMember) for k, x in v.items()) \
+                and "ph_type" in ast.unparse(node_.slice):
+            table = {k.name: x.name for k, x in v.items()}
     MASTER = {"TITLE", "BODY", "DATE", "FOOTER", "SLIDE_NUMBER"}  # placeholder kinds of a slide master (ECMA-376 Part 1, 19.3.1.36 / 19.7.10)
     if table is None:
         ctx.error("LayoutPlaceholder._base_placeholder", "inheritance table does not fold")
